@@ -77,6 +77,9 @@ pub fn compress_fastest<M: Matcher>(
             });
         }
         if compressed_size >= block_size as usize || compressed_size > MAX_BLOCK_SIZE as usize {
+            // The decoder never sees the tables of the discarded compressed block,
+            // so the next block must not refer to them.
+            state.last_huff_table = None;
             let header = BlockHeader {
                 last_block,
                 block_type: crate::blocks::block::BlockType::Raw,
